@@ -405,12 +405,12 @@ class kLeastAbsErrors(pathmodel.AbstractPathModelDAG):
             # the flow value of the edge and the sum of the weights of the paths that go through it (pi variables)
             # If we minimize the sum of edge_errors_vars, then we are minimizing the sum of the absolute errors.
             self.solver.add_constraint(
-                f_u_v - self.solver.quicksum(self.solution_weights_superset[i] * self.edge_vars[(u, v, i)] for i in range(self.k)) <= self.edge_errors_vars[(u, v)],
+                f_u_v - self.solver.quicksum(float(self.solution_weights_superset[i]) * self.edge_vars[(u, v, i)] for i in range(self.k)) <= self.edge_errors_vars[(u, v)],
                 name=f"9aa_u={u}_v={v}",
             )
 
             self.solver.add_constraint(
-                -f_u_v + self.solver.quicksum(self.solution_weights_superset[i] * self.edge_vars[(u, v, i)] for i in range(self.k)) <= self.edge_errors_vars[(u, v)],
+                -f_u_v + self.solver.quicksum(float(self.solution_weights_superset[i]) * self.edge_vars[(u, v, i)] for i in range(self.k)) <= self.edge_errors_vars[(u, v)],
                 name=f"9ab_u={u}_v={v}",
             )
 
